@@ -435,6 +435,17 @@ func (server *SugarDB) updateKeysInCache(ctx context.Context, keys []string) (in
 	database := ctx.Value("Database").(int)
 	var touchCounter int64
 
+	// The number of keys touched is the number of the given keys that exist (and have not
+	// expired), whether or not there is an eviction cache to update.
+	server.storeLock.RLock()
+	now := server.clock.Now()
+	for _, key := range keys {
+		if entry, ok := server.store[database][key]; ok && (entry.ExpireAt == (time.Time{}) || !entry.ExpireAt.Before(now)) {
+			touchCounter++
+		}
+	}
+	server.storeLock.RUnlock()
+
 	// Only update cache when in standalone mode or when raft leader.
 	if server.isInCluster() || (server.isInCluster() && !server.raft.IsRaftLeader()) {
 		return touchCounter, nil
@@ -452,8 +463,6 @@ func (server *SugarDB) updateKeysInCache(ctx context.Context, keys []string) (in
 		if _, ok := server.store[database][key]; !ok {
 			continue
 		}
-
-		touchCounter++
 
 		switch strings.ToLower(server.config.EvictionPolicy) {
 		case constants.AllKeysLFU:
